@@ -5,6 +5,10 @@ from . import core, props, modelio, oracles
 
 
 def main(prop, path):
+    spec = props.PROPS.get(prop) or {}
+    if spec.get("replayer"):
+        # a property explored by function-level checks only replays its own payloads
+        return spec["replayer"](prop, path)
     r = json.load(open(path))
     cases = []
     if "case" in r:
